@@ -2,6 +2,7 @@ package core
 
 import (
 	"fmt"
+	"strings"
 	"testing"
 
 	"github.com/high-moctane/mocrelay"
@@ -27,7 +28,7 @@ func c02Event(t *rapid.T, label string, authors []string) *mocrelay.Event {
 		ne := rapid.IntRange(1, 3).Draw(t, fmt.Sprintf("%stl%d", label, i))
 		tag := mocrelay.Tag{name}
 		if ne >= 2 {
-			tag = append(tag, rapid.SampledFrom([]string{"x", "y", "z", "w"}).Draw(t, fmt.Sprintf("%stv%d", label, i)))
+			tag = append(tag, rapid.SampledFrom([]string{"x", "y", "z", "w", "x,y", "y,"}).Draw(t, fmt.Sprintf("%stv%d", label, i)))
 		}
 		if ne >= 3 {
 			tag = append(tag, rapid.SampledFrom([]string{"x", "third"}).Draw(t, fmt.Sprintf("%stw%d", label, i)))
@@ -42,7 +43,7 @@ func c02Event(t *rapid.T, label string, authors []string) *mocrelay.Event {
 func c02Pool(evs []*mocrelay.Event, authors []string) *gen.FilterPool {
 	p := gen.PoolFromEvents(evs, authors)
 	for _, n := range []string{"e", "p", "t", "E", "q"} {
-		p.TagVals[n] = []string{"x", "y", "z", "w"}
+		p.TagVals[n] = []string{"x", "y", "z", "w", "x,y", "y,"}
 	}
 	p.TagNames = []string{"e", "p", "t", "E", "q"}
 	p.AllowEmptyTagsMap = true
@@ -92,6 +93,21 @@ func TestC02Match(t *testing.T) {
 		}
 		pool := c02Pool(evs, authors)
 		fs := pool.DrawFilters(t, "fs.", 0, 3)
+		// a later filter may carry the comma-joined form of an earlier filter's value list
+		// (["x","y"] vs ["x,y"]): different conditions that must not be confused
+		if len(fs) >= 2 && rapid.IntRange(0, 3).Draw(t, "joined") == 0 {
+			src := fs[0]
+			dst := fs[len(fs)-1]
+			for name, vals := range src.Tags {
+				if len(vals) >= 2 {
+					if dst.Tags == nil {
+						dst.Tags = map[string][]string{}
+					}
+					dst.Tags[name] = []string{strings.Join(vals, ",")}
+					break
+				}
+			}
+		}
 
 		nontrivial := false
 		// pairs
